@@ -1665,7 +1665,7 @@ func c16R4(p *Prog, r *Report, id string) {
 			tagObj = info.ObjectOf(sel.Sel)
 		}
 		if !plain {
-			badOr("the value after \"-tags\" ("+exprString(tagsExpr)+") is not the unmodified configured tag string")
+			badOr("the value after \"-tags\" (" + exprString(tagsExpr) + ") is not the unmodified configured tag string")
 			continue
 		}
 		// guard
